@@ -426,3 +426,33 @@ Proof.
   - intros j j'. apply E.
   - exact N2.
 Qed.
+
+(* the same for histories with recoverable aborts: refused operations (a second registration of a
+   registered function, a registration with every entry point taken, a registration outside the
+   created window, …) leave no trace, whatever follows them *)
+Lemma wrun_rec_oinv ops : forall w, forallb no_destroy ops = true -> oinv w -> oinv (wrun_rec true w ops).
+Proof.
+  induction ops as [|o tl IH]; intros w Hnd Hinv; cbn [wrun_rec]; [exact Hinv|].
+  cbn [forallb] in Hnd. apply andb_prop in Hnd as [Ho Htl].
+  destruct (wstep true w o) as [[w1 x]| | |] eqn:E; try (apply IH; assumption).
+  apply IH; [exact Htl|]. eapply wstep_oinv; eauto.
+Qed.
+
+Theorem owners_agree_recoverable ops nsb nslots nown :
+  forallb no_destroy ops = true ->
+  let w := wrun_rec code_move_assign_releases (world_init nsb nslots nown) ops in
+  forall i k,
+    (In k (reachable w i) <-> In k (ckeys (get_sb w i))) /\
+    (In k (ckeys (get_sb w i)) <-> exists j, cb_owner_at w j = Some (i, k)) /\
+    (forall j j', cb_owner_at w j = Some (i, k) -> cb_owner_at w j' = Some (i, k) -> j = j') /\
+    NoDup (reachable w i).
+Proof.
+  intros Hnd w. pose proof (wrun_rec_oinv ops _ Hnd (oinv_init nsb nslots nown)) as (A & B & C & D & E).
+  intros i k. destruct (A i) as (N1 & N2 & Eq). unfold reachable. repeat split.
+  - apply Eq.
+  - apply Eq.
+  - apply D.
+  - intros [j Hj]. apply (C j i k Hj).
+  - intros j j'. apply E.
+  - exact N2.
+Qed.
